@@ -14,11 +14,11 @@ TRUST = ("Lean 4.33.0 kernel; axioms propext, Quot.sound, Classical.choice only 
 
 CLAIMS = {
  "C01": ("Lean theorems over ALL Layer A histories (invariant Inv by induction over step): total = sum of charged weights >= 0; every ACCEPTED put ends at or below the limit from any state; the bound is preserved by every event except an UpdateWeight whose increase exceeds the free space (C01_bound_partial) — and C01_counterexample proves the unconditional bound false of the code (recorded known finding). Correspondence: model vs crate, whole state after every event, on generated pressure/burst/boundary histories; monitor 0 <= total <= limit after every event.",
-         "Interleavings are at call granularity (client call / worker step / sweep / consumer step are separate events, in any order, un-awaited bursts and parked sends included); finer interleavings inside one command are covered by the Layer B correspondence only where noted in DESIGN.md.", "7/C01"),
- "C02": ("Lean: a read returns exactly the value of the key's current alive store entry (all variants are one function); every stored (key,value) was written by a put/upsert of that key (ghost-history invariant); completed overwrites/deletes are reflected at once (C08_fieldwise, C04_released). Correspondence + regularity monitor over histories with unique value tokens.", "call-granularity interleavings; atomicity of one DashMap operation trusted", "7/C02"),
+         "Layer A: interleavings at call granularity (un-awaited bursts, parked sends, sweeps and worker steps in any order). Layer B (LayerB/Inv.lean, Theorems.lean): the accounting identity modulo in-flight locals, non-negativity and the partial bound at EVERY atomic action of EVERY interleaving of any number of clients with worker, sweeper and consumer, while the cache is running; tied by the action-by-action correspondence (conc mode) which probes the real lock of weight_used.", "7/C01"),
+ "C02": ("Lean: a read returns exactly the value of the key's current alive store entry (all variants are one function); every stored (key,value) was written by a put/upsert of that key (ghost-history invariant); completed overwrites/deletes are reflected at once (C08_fieldwise, C04_released). Layer B: a read returns the value its store.get action found, at action granularity. Correspondence (Layer A, Layer B) + regularity monitor over histories with unique value tokens + stress.", "atomicity of one DashMap operation trusted", "7/C02"),
  "C03": ("Lean: frame theorems — a store entry disappears or changes only through delete of that key, a sweep after ITS current deadline, an eviction under real memory pressure (a put that does not fit), shutdown, or an upsert of that key; hence without pressure an accepted key stays readable (C03_retained). Correspondence on histories whose demanded weight fits; monitor: no eviction, no refusal, no loss.", "operations on the key itself issued one after another (as the property states); call-granularity interleavings", "7/C03"),
- "C04": ("Lean: delete marks the entry soft-deleted before it returns and every read then reports absent; the soft flag of an incarnation is never cleared (all events); an executed delete removes entry, charge, weight and index entry and nothing else; delete of an absent key is rejected and changes nothing; the key can then be put again by admission alone. Correspondence + monitors.", "call-granularity interleavings", "7/C04"),
- "C05": ("Lean: invariant Inv over all Layer A histories (by induction over step, every event): total = sum of charged weights, charged ids <-> held store entries is a bijection (unless the worker has panicked), queued put ids are fresh and pairwise distinct — including un-awaited same-key bursts (repaired defect: worker-side presence re-check). Correspondence compares per-id charged weights; monitor at quiescent points.", "call-granularity interleavings; a worker killed by a panic (known finding under C17) voids the bijection", "7/C05"),
+ "C04": ("Lean: delete marks the entry soft-deleted before it returns and every read then reports absent; the soft flag of an incarnation is never cleared (all events); an executed delete removes entry, charge, weight and index entry and nothing else; delete of an absent key is rejected and changes nothing; the key can then be put again by admission alone. Layer B: the soft flag is permanent under every atomic action. Correspondence (Layer A, Layer B) + monitors incl. free-running stress (a contended shard lock).", "", "7/C04"),
+ "C05": ("Lean: invariant Inv over all Layer A histories (by induction over step, every event): total = sum of charged weights, charged ids <-> held store entries is a bijection (unless the worker has panicked), queued put ids are fresh and pairwise distinct — including un-awaited same-key bursts (repaired defect: worker-side presence re-check). Layer B: used = sum of charged weights - pendingAdd + pendingSub at every action of every interleaving, exact at rest. Correspondence compares per-id charged weights (Layer A and B); monitor at quiescent points.", "a worker killed by a panic (known finding under C17) voids the bijection; during/after shutdown() the identity is void (shutdown is not atomic w.r.t. the worker) and stated so", "7/C05"),
  "C06": ("Lean: full-strength theorems about maybe_add/create_space for all contents, weights, estimates, oracles (iteration order, heap ties, Bloom answers): fits => accepted, nothing evicted; heavier than the cache => rejected, nothing changed; otherwise the run satisfies the declarative eviction rule Evicts (coldest of the sample first, heavier first among equals, only while victim estimate <= incoming, stop as soon as space suffices), accepted iff space results; termination (fuel never exhausted). Correspondence: real maybe_add with tapped iteration order and pops validated as legal by the model; exhaustive SampledKey::cmp table.", "BinaryHeap::pop returns an Ord-maximum (validated per pop against the model's isMaxOf)", "7/C06"),
  "C07": ("Lean: a put (4 variants) of a physically present key is rejected on the spot and changes nothing; a put of a physically absent key is never rejected KeyAlreadyExists, neither on the spot nor by the worker (status is admission's). The property's second half is FALSE for expired-unswept keys: C07_counterexample + known finding. Correspondence + monitor over keys in every life-cycle state.", "'readable' is refined to 'physically present' for the first half (stronger); second half partial as stated", "7/C07"),
  "C08": ("Lean: field-wise effect of put_or_update on a present key for all request shapes (value/expiry exactly as requested, other field untouched, visible when the call returns, other keys untouched), expiry-index classification table, the exact UpdateWeight command and its effect, equality with the corresponding put on an absent key; FALSE on dead entries (expired-unswept, soft-deleted): two counterexample theorems + known findings. Correspondence incl. pure table of type_of_expiry_update; monitor.", "partial as stated for dead entries", "7/C08"),
@@ -26,12 +26,12 @@ CLAIMS = {
  "C10": ("Lean: invariant TtlInv of the expiry index over all histories; a sweep removes from the index exactly the due entries of the visited shard, from store/weights exactly the charged keys whose CURRENT deadline passed, releases exactly their weight, never a key without TTL / with future or changed TTL; stale entries are dropped harmlessly; eventual removal given a sweep in the right shard; tick-fairness lemma. Correspondence + monitor.", "liveness is 'given that sweeps occur' (fairness of the ticker thread is an assumption)", "7/C10"),
  "C11": ("Lean: invariant QInv over all histories: queue handles strictly increasing (exactly once, in order), every unanswered handle is queued; send appends at the tail or parks (never drops/duplicates) and resume enqueues once; the worker removes exactly the head and completes exactly its handle; only worker steps complete handles; delete leaves the key absent. Correspondence with queue sizes 1..3 and un-awaited bursts; monitor.", "crossbeam bounded channel FIFO/blocking semantics modelled (checked by the order comparison every run)", "7/C11"),
  "C12": ("Lean: Layer B model of one acknowledgement at the granularity of the individual shared accesses, any number of pollers/polls, all interleavings: no poll yields Ready(Pending), results are Pending* then Ready(final)*, a Pending return precedes the flag store, the last waker registered before the wake section is woken exactly once, progress. Correspondence: EVERY interleaving of done() with the polls of 1-2 tasks executed on the real handle under the cooperative scheduler, every schedule prefix compared with the model. Repaired defect (status stored before flag).", "sequential consistency of the three cells (argued valid under acquire/release via the mutex hand-over); wakers that re-enter poll from wake_by_ref outside the model", "7/C12"),
- "C13": ("Lean: after the flag is set every write returns Err and every read absent/empty, the flag is permanent; a draining worker answers everything ShuttingDown, a running one the real status; with QInv: once the queue is drained no handle is pending; shutdown() parks only at its two sends and ONE step of the worker (resp. consumer) makes it resumable. Correspondence with queue size 1 and shutdown mid-burst; monitor.", "weak fairness of worker and consumer threads; a worker killed by a panic (C17 known finding) voids 'answers every pending command'", "7/C13"),
+ "C13": ("Lean: after the flag is set every write returns Err and every read absent/empty, the flag is permanent; a draining worker answers everything ShuttingDown, a running one the real status; with QInv: once the queue is drained no handle is pending; shutdown() parks only at its two sends and ONE step of the worker (resp. consumer) makes it resumable. Layer B: the eleven steps of shutdown() interleaved with everything else at action granularity (refusal after the flag, second shutdown returns at once, draining worker). Correspondence with queue size 1 and shutdown mid-burst (Layer A), shutdown interleaved action by action (Layer B), lock log; monitor.", "weak fairness of worker and consumer threads; a worker killed by a panic (C17 known finding) voids 'answers every pending command'", "7/C13"),
  "C14": ("Lean: byte-level facts decided by the kernel over all 256 bytes x 2 nibbles; row/sketch/TinyLFU theorems for all streams, hashes, seeds, sizes: never under-counts (any interleaving, any Bloom false positives), saturates at 15 (16 with doorkeeper), never wraps, increments disturb no other counter, ageing exactly at the threshold halves every counter and clears the doorkeeper; next_power_2 is the least power of two >= c (kernel-only proof), a fresh sketch is well formed, no index out of bounds. Correspondence: exhaustive byte tables, np2 around every power of two, random streams for 30 sizes against the real Row/FrequencyCounter/TinyLFU.", "bloomfilter crate: only 'no false negative' is assumed (and monitored); counters > 2^63 outside the model", "7/C14"),
  "C15": ("Lean: invariant SInv over all histories: hits = buffered + delivered + dropped and delivered = queued + applied (ghost), each successful read creates exactly one record, a miss none; reads never park and never touch sketch, queue or worker; a saturated/absent consumer makes whole buffers count as dropped. Correspondence with pool/buffer sizes 1..3 and a stalled consumer; monitor after every event.", "identities are void after shutdown() (it clears the statistics but not the pool) — stated in the theorem", "7/C15"),
  "C16": ("Lean: the four counter identities hold at EVERY reachable Layer A state before shutdown (ghost counters for lookups and admission refusals; weight identity modulo 2^64 with the wrapping decrease proved correct). The hit ratio is a float: the harness compares it bit-for-bit with hits/(hits+misses) and 'zero only if no hits' on a table and in every stats event. Repaired defect (all-hit ratio).", "float division is checked in Rust, not in Lean", "7/C16"),
  "C17": ("Lean: no-panic theorems for every client call, the worker, sweeper and consumer under explicit side conditions (positive weights, value present for absent-key upserts, now+ttl representable, weights +-24 within i64), lifted to runs; a counterexample theorem per side condition showing it is necessary — these are the recorded known findings (TTL removal on a light key, Duration::MAX, i64 boundary). Correspondence on a boundary-value stream with catch_unwind and panic-site classification; monitor flags every panic or dead background thread not in known_findings.json. Repaired defect (counters = 1).", "allocator failure, stack overflow and panics inside dependencies cannot be exhibited by the model: the boundary stream + panic hook cover them at run time only", "7/C17"),
- "C18": ("Lean: generic theorem for any number of threads: under rank-ordered acquisition, no lock held at a blocking channel operation and consumers that never send, some thread is enabled or all unfinished threads are consumers on their own empty queue; no wait cycle among any subset; the discipline is preserved by steps; the table of the crate's 16 programs satisfies it (decide). Correspondence: Layer A/B harness runs with a watchdog on every call (queue size 1, parked sends, shutdown mid-burst).", "the lock table is transcribed from the code (file:line); parking_lot/dashmap/crossbeam fairness trusted; the get_ref-guard re-entrance is excluded as the property states", "7/C18"),
+ "C18": ("Lean: generic theorem for any number of threads: under rank-ordered acquisition, no lock held at a blocking channel operation and consumers that never send, some thread is enabled or all unfinished threads are consumers on their own empty queue; no wait cycle among any subset; the discipline is preserved by steps; the table of the crate's 16 programs satisfies it (decide); Layer B: the owner of weight_used / of an expiry shard / of a get_ref guard is always enabled, a shutdown in progress waits only for enabled owners. Correspondence: the lock log of an instrumented lock_api (every observed held->acquired pair and the locks held at every schedule point validated against the Lean table), watchdogs in every mode (queue size 1, parked sends, shutdown under load).", "the lock table is transcribed from the code (file:line) and validated against the observed lock log; parking_lot/dashmap/crossbeam fairness trusted; the get_ref-guard re-entrance by the SAME caller is excluded as the property states", "7/C18"),
 }
 NOT_YET = {}
 
